@@ -65,12 +65,13 @@ def random_case(rng, tier):
         # runs, carried out with the transition the returned command asks for, and the checkpoint is written when the
         # listeners are told that the process is paused
         case['pause_in_step'] = sorted({rng.randint(1, len(program['steps']) + 1) for _ in range(rng.randint(1, 2))})
-        case['crash_on_paused'] = sorted({rng.randint(1, 2) for _ in range(rng.randint(1, 2))})
+        case['crash_on_paused'] = sorted({rng.randint(1, 2) for _ in range(rng.randint(0, 2))})
+        case['crash_on_played'] = sorted({rng.randint(1, 2) for _ in range(rng.randint(0, 1))})
     return case
 
 
 def shrink(case):
-    for key in ('pause_in_step', 'crash_on_paused'):
+    for key in ('pause_in_step', 'crash_on_paused', 'crash_on_played'):
         for i in range(len(case.get(key) or [])):
             candidate = copy.deepcopy(case)
             del candidate[key][i]
@@ -102,7 +103,8 @@ def run(case):
     result = Result()
     seams.begin_case()
     runner = persist.RestartRun(case['program'], case.get('crashes'), case.get('media'), case.get('loader', 'default'),
-                                pause_in_step=case.get('pause_in_step'), crash_on_paused=case.get('crash_on_paused'))
+                                pause_in_step=case.get('pause_in_step'), crash_on_paused=case.get('crash_on_paused'),
+                                crash_on_played=case.get('crash_on_played'))
     try:
         proc = runner.run()
         if runner.runaway is not None:
@@ -144,7 +146,7 @@ def _oracle(runner, proc, result, case):
     for event in events:
         if event[0] == 'crash':
             result.counters[f'medium:{event[3]}'] += 1
-            if str(event[2]).startswith('paused-notification'):
+            if '-notification' in str(event[2]):
                 result.counters['probe:restore_from_paused_notification'] += 1
                 continue
             result.counters['probe:restore_in_waiting' if event[2] == 'waiting' else 'probe:restore_before_continuation'] += 1
